@@ -78,9 +78,11 @@ fn order(ctx: &mut Ctx) -> (Vec<u8>, &'static str) {
         }
         5 => {
             // subtree-last: everything outside one subtree, then the subtree
-            let bit = ctx.ch.draw(8) as u8;
-            let mut a: Vec<u8> = (0..=255u8).filter(|x| (x >> bit) & 1 == 0).collect();
-            a.extend((0..=255u8).filter(|x| (x >> bit) & 1 == 1));
+            // the root split is on bit 0 (LSB first): half of the time empty one ROOT subtree first
+            let bit = if ctx.ch.chance(1, 2) { 0 } else { ctx.ch.draw(8) as u8 };
+            let side = ctx.ch.draw(2) as u8;
+            let mut a: Vec<u8> = (0..=255u8).filter(|x| (x >> bit) & 1 == side).collect();
+            a.extend((0..=255u8).filter(|x| (x >> bit) & 1 != side));
             (a, "subtree-last")
         }
         6 => {
@@ -127,7 +129,7 @@ impl Property for C10 {
         let mut insts: Vec<Inst> = vec![Inst { key, punctured: [false; 256], n_punct: 0 }];
         let mut cur = 0usize;
         let (ord, ord_name) = order(ctx);
-        let mode = ctx.ch.draw(6);
+        let mode = if ord_name == "subtree-last" && ctx.ch.chance(2, 3) { 0 } else { ctx.ch.draw(6) };
         let complete = mode == 0; // complete puncturing of one instance, including the 256th input
         let n_ops = match mode {
             0 => 330 + ctx.ch.index(40),
